@@ -43,8 +43,9 @@ def gen_case(rng, tier, k):
         # is cached afterwards must still be right, and the symbolic fallback must agree with it
         case["cfg"] = {"attractor_candidates_limit": rng.choice([1, 1, 2, 3]),
                        "retained_set_optimization_threshold": rng.choice([0, 0, 1, 2])}
-        case["ops"] = prefix[:2] + [["blockx", True, None, rng.random() < 0.5, rng.random() < 0.3]]
+        case["ops"] = prefix[:2] + ([["blockx", True, None, rng.random() < 0.5, rng.random() < 0.3]] if rng.random() < 0.6 else [])
         case["fallback"] = True
+        case["queries"] = [[a, rng.choice([m, "seedsfb-sets", "seedsfb-sets-ro"])] for a, m in case["queries"]]
     return case
 
 
@@ -67,6 +68,9 @@ def run_case(case):
             if mode.startswith("rawcands"):
                 # candidates without any minification: several candidates per attractor reach the symbolic filter
                 sd.node_attractor_candidates(i, compute=True, greedy_asp_minification=False, simulation_minification=False)
+            if "seedsfb" in mode.split("-"):
+                # the default method may fail under the configured limits: the fallback inside node_attractor_seeds
+                sd.node_attractor_seeds(i, compute=True, symbolic_fallback=True)
             if "seeds" in mode.split("-"):
                 sd.node_attractor_seeds(i, compute=True)
             if mode == "sets-sets":
